@@ -94,7 +94,7 @@ func TestVerif_C09(t *testing.T) { //nolint:cyclop
 			w.sendToServer(w.clients[ci], buf)
 			synctest.Wait()
 			w.net.Drain()
-			w.life = nil
+			_ = w.takeLife()
 			alive := func(c int) bool {
 				tid := w.newTid()
 				w.sendToServer(w.clients[c], c09Binding(tid))
